@@ -257,9 +257,9 @@ pub enum Mix {
 /// Draw one valid request.
 pub fn draw_input(r: &mut Rng, mix: Mix, is_f64_hint: bool, rare_huge: bool) -> Input {
     let fam = match mix {
-        Mix::Balanced => r.weighted(&[10, 12, 40, 14, 8, 6, 10]),
-        Mix::AllocHeavy => r.weighted(&[4, 6, 60, 12, 4, 2, 12]),
-        Mix::Short => r.weighted(&[15, 15, 50, 5, 10, 5, 0]),
+        Mix::Balanced => r.weighted(&[10, 12, 36, 14, 8, 6, 8, 6]),
+        Mix::AllocHeavy => r.weighted(&[4, 6, 54, 12, 4, 2, 10, 8]),
+        Mix::Short => r.weighted(&[15, 15, 50, 5, 10, 5, 0, 1]),
     };
     match fam {
         0 => {
@@ -328,6 +328,39 @@ pub fn draw_input(r: &mut Rng, mix: Mix, is_f64_hint: bool, rare_huge: bool) -> 
                 _ => r.range(-400, 400),
             };
             split(&Dec { digits, dec_exp: q }, r, "long")
+        },
+        7 => {
+            // structured mantissa: a near-halfway integer X * 10^q (q >= 135, so the
+            // big-integer path multiplies by 5^135 with X as the multi-limb factor) whose
+            // 64-bit limbs carry adversarial patterns (all-zero, all-ones, one)
+            let ef = 1500 + r.below(546);
+            let bits = (ef << 52) | (draw_float_bits(r, true) & ((1u64 << 52) - 1));
+            let (m, e) = decompose(bits, true);
+            let h = Nat::from_u128(2 * m as u128 + 1).shl((e - 1) as usize);
+            let hdigits = ((e as f64 + 53.0) * 0.30103) as i64;
+            let qmax = (hdigits - 30).clamp(135, 290);
+            let q = r.range(135, qmax) as u32;
+            let x = h.div_pow10(q);
+            let mut limbs = x.to_limbs64();
+            let n = limbs.len();
+            if n > 3 {
+                let k = 1 + r.usize_below(3);
+                for _ in 0..k {
+                    let i = r.usize_below(n - 2);
+                    limbs[i] = *r.pick(&[0u64, 0, 0, u64::MAX, 1, 1 << 63]);
+                }
+            }
+            let digits = Nat::from_limbs64(&limbs).to_decimal();
+            let mut inp = split(&Dec { digits, dec_exp: q as i64 }, r, "structured_mantissa_f64");
+            if r.chance(1, 3) {
+                // keep everything in the integer (exponent >= 135 relative to the last digit)
+                let mut all = [inp.int.clone(), inp.frac.clone()].concat();
+                let dec_exp = inp.exp as i64 - inp.frac.len() as i64;
+                let nz = all.iter().position(|&c| c != b'0').unwrap_or(all.len());
+                all.drain(..nz);
+                inp = split_at(&Dec { digits: all, dec_exp }, usize::MAX, 0, "structured_mantissa_f64");
+            }
+            inp
         },
         4 => {
             // extremes
